@@ -14,7 +14,7 @@ import (
 // Cfg is one point of the encoder-configuration space.
 type Cfg struct {
 	LevelKey, LevelEnc   string // lower capital lowercolor capitalcolor nil noop
-	TimeKey, TimeEnc     string // epoch epochmillis epochnanos iso8601 rfc3339 rfc3339nano layout plainlayout nil noop
+	TimeKey, TimeEnc     string // epoch epochmillis epochnanos iso8601 rfc3339 rfc3339nano layout plainlayout emptylayout nil noop
 	NameKey, NameEnc     string // full nil noop
 	CallerKey, CallerEnc string // short full nil noop
 	FunctionKey          string
@@ -76,6 +76,8 @@ func (c Cfg) EncoderConfig() zapcore.EncoderConfig {
 		ec.EncodeTime = zapcore.TimeEncoderOfLayout(HostileLayout)
 	case "plainlayout":
 		ec.EncodeTime = zapcore.TimeEncoderOfLayout(PlainLayout)
+	case "emptylayout": // a built-in encoder whose text is empty: the value (column) is still there
+		ec.EncodeTime = zapcore.TimeEncoderOfLayout("")
 	case "noop":
 		ec.EncodeTime = noopTime
 	}
@@ -258,6 +260,9 @@ func (c Cfg) timeValue(t time.Time) *jsonx.Node {
 	if c.TimeEnc == "plainlayout" {
 		return jsonx.S(t.Format(PlainLayout))
 	}
+	if c.TimeEnc == "emptylayout" {
+		return jsonx.S("")
+	}
 	return TimeNode(t, Ref{Time: c.TimeEnc})
 }
 
@@ -308,6 +313,8 @@ func (c Cfg) ConsoleColumns(e Ent) []string {
 			cols = append(cols, e.Time.Format(HostileLayout))
 		case "plainlayout":
 			cols = append(cols, e.Time.Format(PlainLayout))
+		case "emptylayout":
+			cols = append(cols, "")
 		default:
 			cols = append(cols, TimeNode(e.Time, Ref{Time: c.TimeEnc}).Text)
 		}
@@ -348,7 +355,7 @@ func AllConfigs(f func(Cfg)) int {
 		return out
 	}
 	levels := opt("level", "lower", "capital", "lowercolor", "capitalcolor", "nil", "noop")
-	times := opt("ts", "epoch", "epochmillis", "epochnanos", "iso8601", "rfc3339", "rfc3339nano", "layout", "plainlayout", "nil", "noop")
+	times := opt("ts", "epoch", "epochmillis", "epochnanos", "iso8601", "rfc3339", "rfc3339nano", "layout", "plainlayout", "emptylayout", "nil", "noop")
 	names := opt("logger", "full", "nil", "noop")
 	callers := opt("caller", "short", "full", "nil", "noop")
 	for _, l := range levels {
